@@ -59,6 +59,11 @@ func tgText(props []tgProp, form string) string {
 	for i, p := range props {
 		var v, ann string
 		switch p.K {
+		case "scopt":
+			// a mandatory literal key spelled like the shortcut, then the optional shortcut property itself
+			lines = append(lines, fmt.Sprintf("  \"@k%d\": %d,", i, i))
+			lines = append(lines, fmt.Sprintf("  @k%d: %s%s // {optional: true}", i, tgName(p.T), map[bool]string{true: "", false: ","}[i == len(props)-1]))
+			continue
 		case "scalar":
 			v = "1"
 		case "choice":
@@ -149,6 +154,14 @@ func tgEval(cs tgCase) []core.Finding {
 				return []core.Finding{{Class: "typegraph:addtype", What: fmt.Sprintf("AddType(%s) failed: %v", tgName(i), firstLineOf(err))}}
 			}
 		}
+		if dump := tgDump(cs); strings.Contains(dump, "\"@k") {
+			for i := 0; i < 3; i++ {
+				kn := fmt.Sprintf("@k%d", i)
+				if err := root.AddType(kn, jschema.New(kn, fmt.Sprintf(`"kk%d"`, i))); err != nil {
+					return []core.Finding{{Class: "typegraph:addtype", What: fmt.Sprintf("AddType(%s) failed: %v", kn, firstLineOf(err))}}
+				}
+			}
+		}
 		if err := root.AddType("@main", root); err != nil {
 			return []core.Finding{{Class: "typegraph:addtype-self", What: fmt.Sprintf("AddType(@main) failed: %v", firstLineOf(err))}}
 		}
@@ -233,7 +246,9 @@ func runC06(c *core.Ctx) error {
 	cfgs := []cfgT{{"TypeGraph_3_2_1.cfg", mk(3, 2, 1, false), 1}, {"TypeGraph_ring4.cfg", mk(4, 1, 1, true), 1}, {"TypeGraph_ring5.cfg", mk(5, 1, 1, true), 1},
 		{"TypeGraph_4_plain_fat1.cfg", mkx(4, 2, 1, false, `{"plain"}`, 1), 1},
 		// what the root node of a type may be: nullable objects and aliases, among 3 types and on rings of 4
-		{"TypeGraph_3_forms.cfg", mkf(3, 1, 1, false, `{"plain", "nullable"}`, 0, allForms), 1}, {"TypeGraph_ring4_forms.cfg", mkf(4, 1, 1, true, `{"plain"}`, 0, allForms), 1}}
+		{"TypeGraph_3_forms.cfg", mkf(3, 1, 1, false, `{"plain", "nullable"}`, 0, allForms), 1}, {"TypeGraph_ring4_forms.cfg", mkf(4, 1, 1, true, `{"plain"}`, 0, allForms), 1},
+		// optional key-shortcut links next to a literal key of the same spelling
+		{"TypeGraph_3_shortcut.cfg", mkx(3, 2, 1, false, `{"plain", "shortcut"}`, 0), 1}}
 	if c.Thorough() {
 		cfgs = append(cfgs, cfgT{"TypeGraph_3_2_2.cfg", mk(3, 2, 2, false), 7}, cfgT{"TypeGraph_ring6.cfg", mk(6, 1, 1, true), 3}, cfgT{"TypeGraph_4_1_1.cfg", mk(4, 1, 1, false), 1},
 			cfgT{"TypeGraph_4_plainopt_fat1.cfg", mkx(4, 2, 1, false, `{"plain", "optional"}`, 1), 2}, cfgT{"TypeGraph_4_plain_fat2.cfg", mkx(4, 2, 1, false, `{"plain"}`, 2), 3},
